@@ -470,7 +470,7 @@ def parseLine(raw, eols=(CRLF, LF, CR ), kind="event line"):
         index, eol = findEol(raw, eols)  # earliest eol, index == -1 if not found
 
         if index < 0:  # not found
-            if len(raw) > MAX_LINE_SIZE:
+            if len(raw) > MAX_LINE_SIZE + 1:  # room for first byte of two byte eol
                 raise LineTooLong(kind)
             else:
                 (yield None)  # more data needed not done parsing header
@@ -501,7 +501,7 @@ def parseLeader(raw, eols=(CRLF, LF), kind="leader header line", headers=None):
         index, eol = findEol(raw, eols)  # earliest eol, index == -1 if not found
 
         if index < 0:  # not found
-            if len(raw) > MAX_LINE_SIZE:
+            if len(raw) > MAX_LINE_SIZE + 1:  # room for first byte of two byte eol
                 raise LineTooLong(kind)
             else:
                 (yield None)  # more data needed not done parsing header
